@@ -148,8 +148,12 @@ func Universe(name string, size string, seed int64) []RawKey {
 
 	case "textq":
 		// small collation universe for closed exploration
+		ws := []string{"a", "A", "á", "ab", "Ab", "abc", "rôle", "item2", "item10"}
+		if thorough {
+			ws = append(ws, "b", "role", "中")
+		}
 		var u []RawKey
-		for _, w := range []string{"a", "A", "á", "ab", "Ab", "abc", "b", "role", "rôle", "item2", "item10", "中"} {
+		for _, w := range ws {
 			u = append(u, rk(w))
 		}
 		for _, w := range []string{"", "ro", "item", "c"} {
